@@ -359,6 +359,14 @@ fn get_min_fold_count_limit(carrier: &mut QueryCarrier, fold: &IRFold) -> Option
     result
 }
 
+/// Whether this component, or any `@fold` nested inside it at any depth, produces outputs.
+fn component_has_outputs(component: &IRQueryComponent) -> bool {
+    !component.outputs.is_empty()
+        || component.folds.values().any(|fold| {
+            !fold.fold_specific_outputs.is_empty() || component_has_outputs(&fold.component)
+        })
+}
+
 fn collect_fold_elements<'query, Vertex: Clone + Debug + 'query>(
     mut iterator: ContextIterator<'query, Vertex>,
     max_fold_count_limit: &Option<usize>,
@@ -505,7 +513,7 @@ fn compute_fold<'query, AdapterT: Adapter<'query> + 'query>(
     // of the fold, we can stop computing the rest of the fold after seeing we have 11 elements.
     let min_fold_size =
         if let Some(min_fold_size) = get_min_fold_count_limit(carrier, fold.as_ref()) {
-            let no_outputs_in_fold = fold.component.outputs.is_empty();
+            let no_outputs_in_fold = !component_has_outputs(&fold.component);
             let has_output_on_fold_count =
                 fold.fold_specific_outputs.values().any(|x| *x == FoldSpecificFieldKind::Count);
             let has_tag_on_fold_count = parent_component.vertices.values().any(|vertex| {
